@@ -235,6 +235,11 @@ class PythonCryptoEndpoint(CryptoEndpoint, EndpointListener):
                     # We should only get here directly after a created message has been accepted.
                     other = self.relays[relay.circuit_id]
                     self.encrypt_cell(cell, other.direction, other.hop)
+            elif not cell.plaintext:
+                # No routing entry means no session keys: sending the cell as it is would put its content on the wire
+                # in the clear (e.g., return traffic of an exit socket that is being closed).
+                self.logger.warning("Dropping cell for unknown circuit %d (no session keys)", circuit_id)
+                return None
         except CryptoException as e:
             self.logger.warning(str(e))
             return None
